@@ -256,6 +256,25 @@ func runC13ForkLimit(r *mon.Run, stream uint64) {
 			continue
 		}
 		for _, x := range out {
+			// a contract that exists at the target in another revision (revised on
+			// the abandoned branch, or on the target branch) or not at all is a
+			// different leaf: the update cannot know, no verdict (same rule as in
+			// the tree scenario)
+			differs := false
+			for _, rev := range x.FileContractRevisions {
+				if e, ok := b.L.V2FC[types.FileContractID(rev.Parent.ID)]; !ok || chainlab.EncodeContract(e.V2FileContract) != chainlab.EncodeContract(rev.Parent.V2FileContract) {
+					differs = true
+				}
+			}
+			for _, res := range x.FileContractResolutions {
+				if e, ok := b.L.V2FC[types.FileContractID(res.Parent.ID)]; !ok || chainlab.EncodeContract(e.V2FileContract) != chainlab.EncodeContract(res.Parent.V2FileContract) {
+					differs = true
+				}
+			}
+			if differs {
+				r.Count("fork_path:no_verdict_contract_differs_at_target", 1)
+				continue
+			}
 			if err := b.L.State.Elements.ValidateTransactionElements(x); err != nil {
 				r.Violation("updated-proof-invalid", "an updated transaction does not verify against the target accumulator: "+err.Error(), cs, nil)
 			}
